@@ -21,6 +21,12 @@ WithIds(l) == [i \in 1..Len(l) |-> [t |-> l[i].t, ts |-> l[i].ts, n |-> l[i].n, 
 UpTo(k, maxLen) == {WithIds(l) : l \in UNION {Lists(k, len) : len \in 0..maxLen}}
 
 McQuick    == UpTo(4, 2)
+\* readers that report end-of-stream by a Read of its own only (bytes.Reader, os.File): no DeliverFinal
+SpecSeparateEOF == Init /\ [][Next /\ ~DeliverFinal]_vars
+\* bodies with at least 4 bytes of caller memory behind them (the later bodies): where an in-place append lands
+McAdj      == {WithIds(<<Pool[a], Pool[b]>>) : a, b \in {2, 5, 6}} \cup {WithIds(<<Pool[2], Pool[4], Pool[3]>>)}
+McQuickAdj == McQuick \cup McAdj
+McSingles  == UpTo(6, 1)            \* files of at most one tag: no body has another body behind it
 McThorough == UpTo(6, 3)
 McSegs     == {1, 4, 11}
 
